@@ -129,9 +129,11 @@ FsDropInService::~FsDropInService() {
 
 void FsDropInService::tick() {
   if (drop_in_dir_deleted_) {
-    if (prepDropInWatcher(drop_in_dir_) == 0) {
-      drop_in_dir_deleted_ = false;
-    }
+    // prepDropInWatcher() clears the flag itself once the new watch is armed,
+    // while it still holds the event loop lock. Clearing it here, after the
+    // lock is gone, could overwrite the event loop's next "directory deleted"
+    // and leave us without a watch for good.
+    prepDropInWatcher(drop_in_dir_);
   }
 }
 
@@ -217,6 +219,7 @@ int FsDropInService::prepDropInWatcher(const std::string& dir) {
   if (prepDropInWatcherEventLoop(dir)) {
     return 1;
   }
+  drop_in_dir_deleted_ = false;
 
   // Forget what is gone, (re)load what is there, in name order
   resyncDropInDir();
